@@ -40,7 +40,7 @@ var MutationKinds = []string{
 	"ref-field-type", "ref-arg-type", "ref-inputfield-type", "ref-dirarg-type", "ref-union-member", "ref-interface", "ref-directive-on-type", "ref-directive-on-field", "ref-directive-on-enumvalue", "ref-directive-with-modifier",
 	// R2 names unique, well-formed, not reserved
 	"dup-type", "dup-field", "dup-arg", "dup-enum-value", "dup-input-field", "dup-directive",
-	"reserved-type", "reserved-field", "reserved-arg", "reserved-enum-value", "reserved-input-field", "reserved-directive", "digit-type-name", "digit-field-name", "enum-value-keyword", "schema-unknown-operation",
+	"reserved-type", "reserved-field", "reserved-arg", "reserved-enum-value", "reserved-input-field", "reserved-directive", "reserved-field-on-extended-builtin", "reserved-arg-on-extended-builtin", "digit-type-name", "digit-field-name", "enum-value-keyword", "schema-unknown-operation",
 	// R3 output / input positions
 	"field-returns-input", "arg-takes-output", "inputfield-takes-output", "dirarg-takes-output", "schema-root-input-type",
 	// R4 interface conformance
@@ -552,6 +552,13 @@ func Mutate(t *rapid.T, base *hx.Schema, kind string) (s *hx.Schema, m Mutation,
 	case "schema-unknown-operation":
 		m.Tail = "extend schema {\n  foo: " + s.RootType("query") + "\n}"
 		m.Names, m.Position = []string{"foo"}, "schema"
+	case "reserved-field-on-extended-builtin":
+		// the rule holds for the members a document adds to one of ggql's own types, too
+		m.Tail = "extend type " + []string{"__Type", "__Field", "__InputValue", "__EnumValue"}[pick(4, "builtin")] + " { __hidden: Int }"
+		m.Names, m.Position = []string{"__hidden"}, "field"
+	case "reserved-arg-on-extended-builtin":
+		m.Tail = "extend type " + []string{"__Type", "__Field", "__InputValue"}[pick(3, "builtin")] + " { origin(__raw: Boolean): String }"
+		m.Names, m.Position = []string{"__raw"}, "argument"
 	case "union-empty":
 		m.Tail = "union Uempty ="
 		m.Names, m.Position = []string{"Uempty"}, "union"
